@@ -116,6 +116,12 @@ def check(case):
             order = list(reversed(range(k))) if case["rng"] % 3 == 0 else [(i + 1) % k for i in range(k)]
             # fold membership is a function of the data alone: another seed in the second call must not matter
             rescored = brewlib.rescore(case, tmp, r["models"], order, rng_shift=0 if case["rng"] % 3 == 0 else 12345)
+            if case["rng"] % 2 == 0:
+                # ... and with another fold count (--load_models with --folds forgotten): k models cannot be "the model of
+                # its fold" for k' folds; scores returned here would come from models that saw the PSM
+                other = k - 1 if (k > 2 and case["rng"] % 4 == 0) else k + 1
+                require(brewlib.mismatch_refused(case, tmp, r["models"], other), "model-count-mismatch-accepted",
+                        f"{k} trained fold models handed back with folds={other}: brew returned scores instead of refusing")
     dfs, metas, models, scores, events = r["dfs"], r["metas"], r["models"], r["scores"], r["events"]
     folds = case["folds"]
     nfiles = len(dfs)
@@ -228,6 +234,8 @@ def check(case):
     classes = [f"key{case['key']}", case["est"], case["fmt"], f"folds{folds}"]
     if case.get("sweep_before"):
         classes.append("brewed-before-with-another-fold-count")
+    elif case.get("single_trained"):
+        classes.append("one-trained-model-handed-over")
     if nfiles > 1:
         classes.append("multi-file")
     if cap is not None and cap < min(len(all_rids - rj) for rj in R):
